@@ -39,6 +39,8 @@ pub fn scenario(sub: u64) -> Option<(String, u64)> {
     let fault = rng.range(0, 7);
     let nthreads = rng.range(1, 3) as usize;
     let delay_ms = rng.range(3, 60);
+    // the connection is given up with drop instead of close in a quarter of the scenarios
+    let use_drop = fault != 0 && rng.chance(1, 4);
     let (stream, peer) = mock_pair();
     let broker = Broker::start(peer.clone(), BrokerCfg { tune: (2047, 131072, if fault == 6 { 1 } else { 0 }), ..BrokerCfg::default() });
     let opts = ConnectionOptions::<Auth>::default().heartbeat(if fault == 6 { 1 } else { 0 });
@@ -147,10 +149,12 @@ pub fn scenario(sub: u64) -> Option<(String, u64)> {
     std::mem::forget(cons_ch);
     let closed = match (early_close, conn_opt.take()) {
         (Some(r), _) => r,
+        (None, Some(conn)) if use_drop => with_deadline(move || drop(conn), Duration::from_secs(5)).map(|_| Err(Error::FrameUnexpected)),
         (None, Some(conn)) => with_deadline(move || conn.close(), Duration::from_secs(5)),
         (None, None) => None,
     };
-    let code = close_code(&closed);
+    // 99: drop returned (it has no result); 9: it did not
+    let code = if use_drop && closed.is_some() { 99 } else { close_code(&closed) };
     // C08: the client's Connection.Close is the last frame it ever sent
     if fault == 0 && std::env::var("VH_DEBUG").is_ok() {
         match client_frames(&peer.out()) {
